@@ -4,6 +4,7 @@ import (
 	"errors"
 	"fmt"
 	"time"
+	"verif/mcbor"
 
 	psatoken "github.com/veraison/psatoken"
 	"verif/engine/choice"
@@ -21,6 +22,19 @@ func refLifecycleState(v uint16) int { // 0..6 valid, 7 invalid
 	}
 	return 7
 }
+
+func c14Ptr(cl psatoken.IClaims) *uint16 {
+	switch x := cl.(type) {
+	case *psatoken.P1Claims:
+		return x.SecurityLifeCycle
+	case *psatoken.P2Claims:
+		return x.SecurityLifeCycle
+	}
+	return nil
+}
+
+// lcValid: the reference table (first byte 0x00..0x60 in steps of 0x10).
+func lcValid(v uint16) bool { return v>>8 <= 0x60 && (v>>8)%0x10 == 0 }
 
 func init() {
 	Scenarios["c14.value"] = func() (choice.Scenario, func() any) {
@@ -144,6 +158,69 @@ func init() {
 					}
 					if g, gerr := cl.GetSecurityLifeCycle(); gerr != nil || (wantValid && g != v) || (!wantValid && g != 0x2001) {
 						c.Failf(fmt.Sprintf("C14:getter-after-other-value:%s:0x%04x", prof, v), "Get=(0x%04x,%v)", g, gerr)
+					}
+				}
+			}
+			// 3d two claims-sets given the same value by their setters are independent: writing behind the pointer of one
+			//    (as decoding into it does) changes nothing about the other
+			if wantValid {
+				var objs []psatoken.IClaims
+				for _, prof := range []string{psatoken.Profile1Name, psatoken.Profile2Name, psatoken.Profile1Name} {
+					if cl, e := psatoken.NewClaims(prof); e == nil && cl.SetSecurityLifeCycle(v) == nil {
+						objs = append(objs, cl)
+					}
+				}
+				for i, cl := range objs {
+					if p := c14Ptr(cl); p != nil {
+						*p = 0x2002
+					}
+					for j, other := range objs {
+						if j <= i {
+							continue
+						}
+						if g, gerr := other.GetSecurityLifeCycle(); gerr != nil || g != v {
+							c.Failf(fmt.Sprintf("C14:setter-shares-storage:0x%04x", v), "two claims-sets were given 0x%04x by their setters; a write behind the pointer of one makes the other's getter return (0x%04x, %v)", v, g, gerr)
+						}
+					}
+					if p := c14Ptr(cl); p != nil {
+						*p = v // put it back: if the storage is shared with something that outlives this execution, leave it as found
+					}
+				}
+			}
+			// 3e the getter judges the value it would return: an object decoded earlier, copied by value (the copy shares
+			//    the pointer), then the original decodes a token carrying the value under test
+			for _, p := range []int{1, 2} {
+				a := choiceZero(p)
+				first := mcbor.Encode(wireTree(a, true))
+				a.Lifecycle = u16p(v)
+				second := mcbor.Encode(wireTree(a, true))
+				x, e := psatoken.NewClaims(canonOf(p))
+				if e != nil || x.(interface{ UnmarshalCBOR([]byte) error }).UnmarshalCBOR(first) != nil {
+					continue
+				}
+				var cp psatoken.IClaims
+				switch t := x.(type) {
+				case *psatoken.P1Claims:
+					c1 := *t
+					cp = &c1
+				case *psatoken.P2Claims:
+					c2 := *t
+					cp = &c2
+				}
+				_, _ = cp.GetSecurityLifeCycle()
+				_ = cp.Validate()
+				_ = x.(interface{ UnmarshalCBOR([]byte) error }).UnmarshalCBOR(second)
+				for _, o := range []psatoken.IClaims{x, cp} {
+					ptr := c14Ptr(o)
+					g, gerr := o.GetSecurityLifeCycle()
+					st.Trans.Add(1)
+					if ptr == nil {
+						continue
+					}
+					held := *ptr
+					heldValid := lcValid(held)
+					if heldValid != (gerr == nil) || (gerr == nil && g != held) {
+						c.Failf(fmt.Sprintf("C14:getter-judges-stale-value:P%d:0x%04x", p, held), "the object holds 0x%04x (valid=%v) after a decode into it / into the object it was copied from; Get=(0x%04x,%v)", held, heldValid, g, gerr)
 					}
 				}
 			}
